@@ -3,17 +3,22 @@ depends on which spelling a maintainer prefers.
 
   match s: case C(): … case "x": … case _: …          ->  if isinstance(s, C): … elif s == "x": … else: …   (patterns with an exact expression form)
   with contextlib.suppress(E): BODY                   ->  try: BODY except E: pass
-  @_guard def f(…): BODY   where the private decorator ->  def f(…): PRE; BODY
-      only runs PRE and then calls f with its arguments unchanged
+  @_guard def f(…): BODY   where the private decorator ->  def f(…): PRE; BODY [; POST on every normal way out]
+      only runs PRE, calls f with its arguments unchanged [, runs POST] and returns the result
+  try: x = D[k]  except KeyError: A  else: B           ->  if k in D: x = D[k]; B  else: A      (also return D[k], D[k].append(v))
+  with self._h(a…): BODY   where _h is a private       ->  PRE; BODY; POST      (try: BODY finally: POST when _h has one)
+      @contextmanager generator  PRE; yield; POST
   if <c>: raise AssertionError(<msg>)                 ->  assert not <c>, <msg>
   _require(<c>, <msg>)   where _require is a helper   ->  assert <c>, <msg>
       that does nothing but raise AssertionError exactly when its parameter is false (decided by path enumeration; the
       helper may live in a sibling module, be a method, build its message lazily)
+  filter(f, S) / map(f, S)                            ->  (x for x in S if f(x)) / (f(x) for x in S)
   all(map(f, S)) / any(map(f, S))                     ->  all(f(_each) for _each in S)
   not any(E for x in S)                               ->  all(not E for x in S)
   if (x := E) is not None: …                          ->  x = E; if x is not None: …     (walrus evaluated first in the test)
   x = A if c else B  /  return A if c else B          ->  if c: x = A else: x = B  /  if c: return A else: return B
   for x in (A if c else ()): BODY                     ->  if c: for x in A: BODY
+  for a in chain.from_iterable(E for x in IT): BODY   ->  for x in IT: for a in E: BODY
   for a, b in product(X, Y): BODY                     ->  for a in X: for b in Y: BODY     (X, Y plain reads BODY does not mention)
   X.extend(E for v in IT if C) / X += [E for …]       ->  for v in IT: if C: X.append(E)        (S.update(…) -> S.add, D.update(pairs) -> D[k] = v)
   NAME = make(a…)   where make only defines and       ->  def NAME(…): <the inner function's body with make's parameters replaced>
@@ -91,6 +96,41 @@ def _require_helpers(tree, nodes=None):
     return out
 
 
+GLOBAL_CONTEXTS = {}  # name -> (parameters without self, PRE statements, POST statements, POST runs in a finally clause)
+
+
+def _context_helpers(tree):
+    """private context managers written as generators:   @contextmanager def _h(self, a): PRE; yield; POST
+       (or PRE; try: yield finally: POST)"""
+    out = {}
+    for fn in ast.walk(tree):
+        if not isinstance(fn, ast.FunctionDef) or not any((d.id if isinstance(d, ast.Name) else getattr(d, "attr", None)) == "contextmanager" for d in fn.decorator_list):
+            continue
+        body = [s_ for s_ in fn.body if not (isinstance(s_, ast.Expr) and isinstance(s_.value, ast.Constant))]
+        k = next((i for i, s_ in enumerate(body) if (isinstance(s_, ast.Expr) and isinstance(s_.value, ast.Yield)) or
+                  (isinstance(s_, ast.Try) and len(s_.body) == 1 and isinstance(s_.body[0], ast.Expr) and isinstance(s_.body[0].value, ast.Yield)
+                   and not s_.handlers and not s_.orelse)), None)
+        if k is None:
+            continue
+        y = body[k]
+        pre, post, fin = body[:k], body[k + 1:], False
+        if isinstance(y, ast.Try):
+            if post:
+                continue
+            post, fin = list(y.finalbody), True
+            y = y.body[0]
+        if y.value.value is not None:
+            continue  # something is handed to `as`
+        if any(isinstance(x, (ast.Yield, ast.YieldFrom, ast.Return, ast.FunctionDef, ast.Lambda)) for s_ in pre + post for x in ast.walk(s_)):
+            continue
+        a = fn.args
+        if a.vararg or a.kwarg or a.kwonlyargs or a.defaults:
+            continue
+        params = [p.arg for p in a.args]
+        out[fn.name] = (params, pre, post, fin)
+    return out
+
+
 GLOBAL_DECORATORS = {}  # name -> (wrapper's named parameters, statements it runs before calling the function)
 
 
@@ -112,6 +152,16 @@ def _guard_decorators(tree):
             continue
         w, wrapped = body[0], fn.args.args[0].arg
         wb = [s_ for s_ in w.body if not (isinstance(s_, ast.Expr) and isinstance(s_.value, ast.Constant))]
+        post = []
+        if wb and isinstance(wb[-1], ast.Return) and isinstance(wb[-1].value, ast.Name):
+            # bracket form: PRE; result = fn(…); POST; return result
+            rn = wb[-1].value.id
+            k = next((i_ for i_, s_ in enumerate(wb) if isinstance(s_, ast.Assign) and len(s_.targets) == 1 and isinstance(s_.targets[0], ast.Name)
+                      and s_.targets[0].id == rn and isinstance(s_.value, ast.Call) and isinstance(s_.value.func, ast.Name) and s_.value.func.id == wrapped), None)
+            if k is None or any(isinstance(x, ast.Name) and x.id == rn for s_ in wb[k + 1:-1] for x in ast.walk(s_)):
+                continue
+            post = wb[k + 1:-1]
+            wb = wb[:k] + [ast.copy_location(ast.Return(value=wb[k].value), wb[k])]
         if not wb or not (isinstance(wb[-1], ast.Return) and isinstance(wb[-1].value, ast.Call) and isinstance(wb[-1].value.func, ast.Name)
                           and wb[-1].value.func.id == wrapped):
             continue
@@ -127,11 +177,11 @@ def _guard_decorators(tree):
             continue
         pre = wb[:-1]
         banned = {wrapped} | ({w.args.vararg.arg} if w.args.vararg else set()) | ({w.args.kwarg.arg} if w.args.kwarg else set())
-        if any(isinstance(x, ast.Name) and x.id in banned for s_ in pre for x in ast.walk(s_)):
+        if any(isinstance(x, ast.Name) and x.id in banned for s_ in pre + post for x in ast.walk(s_)):
             continue
-        if any(isinstance(x, (ast.FunctionDef, ast.Lambda, ast.Return, ast.Yield, ast.YieldFrom)) for s_ in pre for x in ast.walk(s_)):
+        if any(isinstance(x, (ast.FunctionDef, ast.Lambda, ast.Return, ast.Yield, ast.YieldFrom)) for s_ in pre + post for x in ast.walk(s_)):
             continue
-        out[fn.name] = (named, pre)
+        out[fn.name] = (named, pre, post)
     return out
 
 
@@ -146,8 +196,11 @@ def _apply_guard_decorators(tree, decos):
         for d in f.decorator_list:
             nm = d.id if isinstance(d, ast.Name) else (d.attr if isinstance(d, ast.Attribute) else None)
             if nm in decos and not (f.args.vararg or f.args.kwonlyargs):
-                named, pre = decos[nm]
+                named, pre, post = decos[nm]
                 params = [a.arg for a in f.args.args]
+                if post and any(isinstance(x, (ast.Yield, ast.YieldFrom)) for x in ast.walk(f)):
+                    keep.append(d)
+                    continue
                 if len(named) <= len(params):
                     m = {w_: ast.Name(id=p_, ctx=ast.Load()) for w_, p_ in zip(named, params) if w_ != p_}
                     stmts = [copy_tree(s_) for s_ in pre]
@@ -158,11 +211,91 @@ def _apply_guard_decorators(tree, decos):
                             if hasattr(x, "lineno"):
                                 x.lineno = x.end_lineno = f.lineno
                     doc = [f.body[0]] if f.body and isinstance(f.body[0], ast.Expr) and isinstance(f.body[0].value, ast.Constant) and isinstance(f.body[0].value.value, str) else []
-                    f.body = doc + stmts + f.body[len(doc):]
+                    body = f.body[len(doc):]
+                    if post:
+                        # what the wrapper does after the call runs on every normal way out of the body: before each return (the value is
+                        # computed first) and after the last statement
+                        pst = [copy_tree(s_) for s_ in post]
+                        if m:
+                            pst = [_Sub(m).visit(s_) for s_ in pst]
+                        for s_ in pst:
+                            for x in ast.walk(s_):
+                                if hasattr(x, "lineno"):
+                                    x.lineno = x.end_lineno = f.lineno
+                        cnt = [0]
+
+                        def ret_block(stmts_):
+                            out_ = []
+                            for s_ in stmts_:
+                                if isinstance(s_, ast.Return):
+                                    if s_.value is None or isinstance(s_.value, (ast.Constant, ast.Name)):
+                                        out_.extend([copy_tree(p_) for p_ in pst] + [s_])
+                                    else:
+                                        cnt[0] += 1
+                                        rn_ = "result__w%d" % cnt[0]
+                                        out_.append(ast.copy_location(ast.Assign(targets=[ast.Name(id=rn_, ctx=ast.Store())], value=s_.value), s_))
+                                        out_.extend(copy_tree(p_) for p_ in pst)
+                                        out_.append(ast.copy_location(ast.Return(value=ast.Name(id=rn_, ctx=ast.Load())), s_))
+                                    continue
+                                for fld in ("body", "orelse", "finalbody"):
+                                    sub = getattr(s_, fld, None)
+                                    if isinstance(sub, list) and sub and isinstance(sub[0], ast.stmt) and not isinstance(s_, (ast.FunctionDef, ast.AsyncFunctionDef, ast.ClassDef)):
+                                        setattr(s_, fld, ret_block(sub))
+                                for h_ in getattr(s_, "handlers", []) or []:
+                                    h_.body = ret_block(h_.body)
+                                out_.append(s_)
+                            return out_
+                        body = ret_block(body)
+                        if not (body and isinstance(body[-1], (ast.Return, ast.Raise))):
+                            body = body + [copy_tree(p_) for p_ in pst]
+                        for s_ in body:
+                            ast.fix_missing_locations(s_)
+                    f.body = doc + stmts + body
                     changed = True
                     continue
             keep.append(d)
         f.decorator_list = keep
+    return changed
+
+
+def _inline_single_use_iterators(tree):
+    """pairs = chain.from_iterable(…) / zip(…) / (… for …)   immediately followed by   for v in pairs:   with `pairs` used nowhere else
+    ->  for v in <the expression>:"""
+    changed = False
+    for fn in ast.walk(tree):
+        if not isinstance(fn, (ast.FunctionDef, ast.AsyncFunctionDef)):
+            continue
+        uses = {}
+        for x in ast.walk(fn):
+            if isinstance(x, ast.Name):
+                uses[x.id] = uses.get(x.id, 0) + 1
+
+        def block(stmts):
+            nonlocal changed
+            i = 0
+            while i + 1 < len(stmts):
+                a, b = stmts[i], stmts[i + 1]
+                if isinstance(a, ast.Assign) and len(a.targets) == 1 and isinstance(a.targets[0], ast.Name) and uses.get(a.targets[0].id) == 2 \
+                        and isinstance(b, ast.For) and isinstance(b.iter, ast.Name) and b.iter.id == a.targets[0].id \
+                        and (isinstance(a.value, ast.GeneratorExp) or (isinstance(a.value, ast.Call) and (
+                            (isinstance(a.value.func, ast.Attribute) and a.value.func.attr in ("from_iterable",)) or
+                            (isinstance(a.value.func, ast.Name) and a.value.func.id in ("zip", "chain", "enumerate", "reversed", "product", "map", "filter")) or
+                            # a stage of a pipeline of private helpers: stages = self._pairs(self._wires(a, b))
+                            (isinstance(a.value.func, (ast.Attribute, ast.Name)) and (a.value.func.attr if isinstance(a.value.func, ast.Attribute) else a.value.func.id).startswith("_")
+                             and any(isinstance(x, ast.Call) for x in a.value.args))))):
+                    b.iter = a.value
+                    del stmts[i]
+                    changed = True
+                    continue
+                i += 1
+            for st in stmts:
+                for fld in ("body", "orelse", "finalbody"):
+                    sub = getattr(st, fld, None)
+                    if isinstance(sub, list) and sub and isinstance(sub[0], ast.stmt) and not isinstance(st, (ast.FunctionDef, ast.AsyncFunctionDef, ast.ClassDef)):
+                        block(sub)
+                for h in getattr(st, "handlers", []) or []:
+                    block(h.body)
+        block(fn.body)
     return changed
 
 
@@ -195,7 +328,8 @@ def _desugar_match(tree):
                 st = test_of(sub, ast.Attribute(value=copy_tree(subj), attr=attr, ctx=ast.Load()))
                 if st is None:
                     return None
-                parts.append(st)
+                if not (isinstance(st, ast.Constant) and st.value is True):
+                    parts.append(st)
             return parts[0] if len(parts) == 1 else ast.BoolOp(op=ast.And(), values=parts)
         if name == "MatchOr":
             subs = [test_of(p_, subj) for p_ in pat.patterns]
@@ -463,11 +597,17 @@ def normalise(tree):
     nodes = list(ast.walk(tree))
     if any(x.__class__.__name__ == "Match" for x in nodes) and _desugar_match(tree):
         nodes = list(ast.walk(tree))
+    if any(isinstance(x, ast.For) and isinstance(x.iter, ast.Name) for x in nodes) and _inline_single_use_iterators(tree):
+        nodes = list(ast.walk(tree))
     helpers = dict(GLOBAL_HELPERS)
     local = _require_helpers(tree, nodes)
     helpers.update(local)
     GLOBAL_HELPERS.update(local)
     imported = {a.asname or a.name for n in nodes if isinstance(n, ast.ImportFrom) for a in n.names}
+    local_ctx = _context_helpers(tree) if any(isinstance(x, ast.FunctionDef) and x.decorator_list for x in nodes) else {}
+    GLOBAL_CONTEXTS.update(local_ctx)
+    contexts = {k: v for k, v in GLOBAL_CONTEXTS.items() if k.startswith("_") and (k in local_ctx or k in imported or any(
+        isinstance(x, ast.Attribute) and x.attr == k for x in nodes))}
     helpers = {k: v for k, v in helpers.items() if k in local or k in imported}
 
     class T(ast.NodeTransformer):
@@ -542,8 +682,85 @@ def normalise(tree):
             self.depth -= 1
             return n
 
+        def visit_Try(self, n):
+            self.generic_visit(n)
+            return self._eafp(n)
+
+        def _eafp(self, n):
+            # try: S[D[k]]  except KeyError: A  else: B      ->      if k in D: S[D[k]]; B  else: A
+            # S is one statement whose only way to a KeyError is the lookup D[k] itself (x = D[k], return D[k], D[k].append(v));
+            # D and k are names, attribute chains or literals.  Assumes what every mapping promises: D[k] raises KeyError exactly
+            # when `k in D` is false.
+            if len(n.handlers) == 1 and not n.finalbody and len(n.body) == 1 and isinstance(n.handlers[0].type, ast.Name) and n.handlers[0].type.id == "KeyError" \
+                    and not (n.handlers[0].name and any(isinstance(x, ast.Name) and x.id == n.handlers[0].name for s_ in n.handlers[0].body for x in ast.walk(s_))):
+                from .unroll import _simple
+                st, sub = n.body[0], None
+                if isinstance(st, ast.Assign) and len(st.targets) == 1 and isinstance(st.targets[0], ast.Name) and isinstance(st.value, ast.Subscript):
+                    sub = st.value
+                elif isinstance(st, ast.Return) and isinstance(st.value, ast.Subscript) and not n.orelse:
+                    sub = st.value
+                elif isinstance(st, ast.Expr) and isinstance(st.value, ast.Call) and isinstance(st.value.func, ast.Attribute) and st.value.func.attr in ("append", "add", "extend", "update") \
+                        and isinstance(st.value.func.value, ast.Subscript) and all(isinstance(a_, (ast.Name, ast.Constant)) for a_ in st.value.args) and not st.value.keywords:
+                    sub = st.value.func.value
+                def plain(e):
+                    return isinstance(e, (ast.Name, ast.Constant)) or (isinstance(e, ast.Attribute) and plain(e.value))
+                if sub is not None and plain(sub.value) and plain(sub.slice) and isinstance(sub.ctx, ast.Load):
+                    from .core import copy_tree
+                    test = ast.Compare(left=copy_tree(sub.slice), ops=[ast.In()], comparators=[copy_tree(sub.value)])
+                    hb = n.handlers[0].body
+                    new = ast.If(test=test, body=[st] + list(n.orelse), orelse=[] if all(isinstance(h, ast.Pass) for h in hb) else list(hb))
+                    ast.copy_location(new, n)
+                    ast.fix_missing_locations(new)
+                    return new
+            return n
+
         def visit_With(self, n):
             self.generic_visit(n)
+            # with self._h(a…): BODY   with _h a private generator context manager   ->   PRE; BODY; POST   (try/finally when it has one)
+            if len(n.items) == 1 and n.items[0].optional_vars is None and isinstance(n.items[0].context_expr, ast.Call) and contexts:
+                c = n.items[0].context_expr
+                nm = c.func.attr if isinstance(c.func, ast.Attribute) else (c.func.id if isinstance(c.func, ast.Name) else None)
+                if nm in contexts and not c.keywords:
+                    from .core import copy_tree
+                    from .unroll import _Sub, _simple
+                    params, pre, post, fin = contexts[nm]
+                    args = list(c.args)
+                    if params and params[0] in ("self", "cls") and isinstance(c.func, ast.Attribute):
+                        args = [c.func.value] + args
+                    # a return/break/continue out of BODY still runs POST (a normal exit of the with block); only the try/finally form
+                    # says that in sequence
+                    jumps = any(isinstance(x, (ast.Return, ast.Break, ast.Continue)) for s_ in n.body for x in ast.walk(s_))
+                    if len(args) == len(params) and all(_simple(a_) for a_ in args) and (fin or not post or not jumps):
+                        m = dict(zip(params, args))
+                        stored = {x.id for s_ in pre + post for x in ast.walk(s_) if isinstance(x, ast.Name) and not isinstance(x.ctx, ast.Load)}
+                        if not (stored & set(params)):
+                            T.ctx_count = getattr(T, "ctx_count", 0) + 1
+                            ren = {v_: ast.Name(id="%s__c%d" % (v_, T.ctx_count), ctx=ast.Load()) for v_ in stored}
+
+                            class Ren(ast.NodeTransformer):
+                                def visit_Name(self, x):
+                                    if x.id in ren:
+                                        return ast.copy_location(ast.Name(id=ren[x.id].id, ctx=x.ctx), x)
+                                    return x
+
+                            def inst(stmts_):
+                                out_ = []
+                                for s_ in stmts_:
+                                    s2 = _Sub(m).visit(Ren().visit(copy_tree(s_)))
+                                    for x in ast.walk(s2):
+                                        if hasattr(x, "lineno"):
+                                            x.lineno = x.end_lineno = n.lineno
+                                    out_.append(s2)
+                                return out_
+                            p1, p2 = inst(pre), inst(post)
+                            if fin and p2:
+                                core_ = [ast.copy_location(ast.Try(body=n.body, handlers=[], orelse=[], finalbody=p2), n)]
+                            else:
+                                core_ = list(n.body) + p2
+                            out_ = p1 + core_
+                            for s_ in out_:
+                                ast.fix_missing_locations(s_)
+                            return out_
             # with contextlib.suppress(E…): BODY   ->   try: BODY except (E…): pass
             if len(n.items) == 1 and n.items[0].optional_vars is None and isinstance(n.items[0].context_expr, ast.Call):
                 c = n.items[0].context_expr
@@ -551,7 +768,9 @@ def normalise(tree):
                 if nm == "suppress" and c.args and not c.keywords:
                     typ = c.args[0] if len(c.args) == 1 else ast.Tuple(elts=list(c.args), ctx=ast.Load())
                     h = ast.ExceptHandler(type=typ, name=None, body=[ast.copy_location(ast.Pass(), n)])
-                    return ast.fix_missing_locations(ast.copy_location(ast.Try(body=n.body, handlers=[ast.copy_location(h, n)], orelse=[], finalbody=[]), n))
+                    new = ast.fix_missing_locations(ast.copy_location(ast.Try(body=n.body, handlers=[ast.copy_location(h, n)], orelse=[], finalbody=[]), n))
+                    # `with suppress(KeyError): return D[k]` is the look-up-or-fall-through idiom: read like its try form
+                    return self._eafp(new)
             return n
 
         def visit_Return(self, n):
@@ -591,6 +810,23 @@ def normalise(tree):
                     for tgt, src in reversed(list(zip(n.target.elts, it.args))):
                         inner = [ast.copy_location(ast.For(target=tgt, iter=src, body=inner, orelse=[]), n)]
                     return inner[0]
+            # for a in chain.from_iterable(E for x in IT [if C]): BODY   ->   for x in IT: [if C:] for a in E: BODY   (both sides are lazy)
+            if isinstance(it, ast.Call) and isinstance(it.func, ast.Attribute) and it.func.attr == "from_iterable" and len(it.args) == 1 and not it.keywords \
+                    and isinstance(it.args[0], ast.GeneratorExp) and not n.orelse and not any(g.is_async for g in it.args[0].generators):
+                g = it.args[0]
+                bound = {x.id for gen in g.generators for x in ast.walk(gen.target) if isinstance(x, ast.Name)}
+                body_names = {x.id for b in n.body for x in ast.walk(b) if isinstance(x, ast.Name)} | {x.id for x in ast.walk(n.target) if isinstance(x, ast.Name)}
+                if not (bound & body_names):
+                    inner = [ast.copy_location(ast.For(target=n.target, iter=g.elt, body=n.body, orelse=[]), n)]
+                    for gen in reversed(g.generators):
+                        for c in reversed(gen.ifs):
+                            inner = [ast.copy_location(ast.If(test=c, body=inner, orelse=[]), n)]
+                        tgt = gen.target
+                        for x in ast.walk(tgt):
+                            if hasattr(x, "ctx"):
+                                x.ctx = ast.Store()
+                        inner = [ast.copy_location(ast.For(target=tgt, iter=gen.iter, body=inner, orelse=[]), n)]
+                    return ast.fix_missing_locations(inner[0])
             if isinstance(it, ast.IfExp) and not n.orelse:
                 empty = lambda e: isinstance(e, (ast.Tuple, ast.List)) and not e.elts
                 if empty(it.orelse) and not empty(it.body):
@@ -614,6 +850,15 @@ def normalise(tree):
 
         def visit_Call(self, n):
             self.generic_visit(n)
+            # filter(f, S) -> (x for x in S if f(x))      map(f, S) -> (f(x) for x in S)        (lazy on both sides)
+            if isinstance(n.func, ast.Name) and n.func.id in ("filter", "map") and len(n.args) == 2 and not n.keywords \
+                    and isinstance(n.args[0], (ast.Name, ast.Attribute, ast.Lambda)) and not (isinstance(n.args[0], ast.Name) and n.args[0].id == "None"):
+                T.counter = getattr(T, "counter", 0) + 1
+                v = "each__f%d" % T.counter
+                call = ast.Call(func=n.args[0], args=[ast.Name(id=v, ctx=ast.Load())], keywords=[])
+                comp = ast.comprehension(target=ast.Name(id=v, ctx=ast.Store()), iter=n.args[1], ifs=[call] if n.func.id == "filter" else [], is_async=0)
+                elt = ast.Name(id=v, ctx=ast.Load()) if n.func.id == "filter" else call
+                return ast.fix_missing_locations(ast.copy_location(ast.GeneratorExp(elt=elt, generators=[comp]), n))
             # all(map(f, S)) / any(map(f, S))  ->  all(f(_x) for _x in S)
             if isinstance(n.func, ast.Name) and n.func.id in ("all", "any") and len(n.args) == 1 and not n.keywords:
                 m = n.args[0]
@@ -626,13 +871,16 @@ def normalise(tree):
             return n
     need = False
     for x in nodes:
-        if isinstance(x, ast.For) and (isinstance(x.iter, ast.IfExp) or (isinstance(x.iter, ast.Call) and "product" in ast.dump(x.iter.func))):
+        if isinstance(x, ast.For) and (isinstance(x.iter, ast.IfExp) or (isinstance(x.iter, ast.Call) and ("product" in ast.dump(x.iter.func) or "from_iterable" in ast.dump(x.iter.func)))):
             need = True
             break
         if isinstance(x, (ast.Assign, ast.Return)) and isinstance(x.value, ast.IfExp):
             need = True
             break
-        if isinstance(x, ast.NamedExpr) or (isinstance(x, ast.With) and "suppress" in ast.dump(x.items[0].context_expr)):
+        if isinstance(x, ast.Try) and len(x.handlers) == 1 and isinstance(x.handlers[0].type, ast.Name) and x.handlers[0].type.id == "KeyError":
+            need = True
+            break
+        if isinstance(x, ast.NamedExpr) or (isinstance(x, ast.With) and ("suppress" in ast.dump(x.items[0].context_expr) or contexts)):
             need = True
             break
         if isinstance(x, ast.If):
@@ -643,6 +891,9 @@ def normalise(tree):
             need = True
             break
         elif isinstance(x, ast.Call) and isinstance(x.func, ast.Name):
+            if x.func.id in ("filter", "map") and len(x.args) == 2:
+                need = True
+                break
             if x.func.id in helpers or (x.func.id in ("all", "any") and len(x.args) == 1 and isinstance(x.args[0], ast.Call)
                                         and isinstance(x.args[0].func, ast.Name) and x.args[0].func.id == "map"):
                 need = True
